@@ -112,9 +112,16 @@ def check(ctx):
     pl = ctx.repo.module(PL)
     ir = pl.func("CommandPipeline.iterraw")
     cfg = CFG(ir)
-    waits = [n for n in cfg.nodes if n.kind == "stmt" and any(call_name(c) == "proc.wait" for c in calls_in(n.ast))]
-    drains = [n for n in cfg.nodes if n.kind == "stmt" and any(isinstance(x, ast.YieldFrom) and isinstance(x.value, ast.Call) and call_name(x.value) == "safe_readlines" and unparse(x.value.args[0]) == "stdout" and len(x.value.args) == 1 for x in ast.walk(n.ast))]
-    main_loop = [n for n in cfg.nodes if n.kind == "while" and "proc.poll()" in unparse(n.ast.test)]
+    # roles, not spellings: the last stage, its stdout reader, the spec
+    idefs = df.all_defs(ir)
+    PROC = names_bound_to_text(ir, "self.proc", idefs) | {"self.proc"}
+    SPEC = names_bound_to_text(ir, "self.spec", idefs) | {"self.spec"}
+    STDOUT = names_defined_by(ir, lambda v: isinstance(v, ast.Attribute) and v.attr == "stdout" and unparse(v.value) in PROC, idefs)
+    if not STDOUT:
+        raise AnalysisError(f"{PL}:iterraw: no local bound to the last stage's stdout")
+    waits = [n for n in cfg.nodes if n.kind == "stmt" and any(isinstance(c.func, ast.Attribute) and c.func.attr == "wait" and unparse(c.func.value) in PROC for c in calls_in(n.ast))]
+    drains = [n for n in cfg.nodes if n.kind == "stmt" and any(isinstance(x, ast.YieldFrom) and isinstance(x.value, ast.Call) and call_name(x.value) == "safe_readlines" and unparse(x.value.args[0]) in STDOUT and len(x.value.args) == 1 for x in ast.walk(n.ast))]
+    main_loop = [n for n in cfg.nodes if n.kind == "while" and any(isinstance(c, ast.Call) and isinstance(c.func, ast.Attribute) and c.func.attr == "poll" and unparse(c.func.value) in PROC for c in ast.walk(n.ast.test))]
     if len(waits) < 2 or not drains or not main_loop:
         raise AnalysisError(f"{PL}:iterraw: anchors not found (waits={len(waits)} drains={len(drains)} loop={len(main_loop)})")
     threaded_waits = [w for w in waits if cfg.dominated(w, lambda m: m in main_loop)]
@@ -123,7 +130,7 @@ def check(ctx):
         ok, path = cfg.must_pass([w], lambda m: m in drains, exits=("exit",))
         ctx.ob("R3", f"{PL}:CommandPipeline.iterraw", "threaded branch: after the last proc.wait() a full drain `yield from safe_readlines(stdout)` is reached before the normal exit (the tail written just before exit would be lost)", ok, key="iterraw|no-drain-after-wait", where=loc(w.ast), path=cfg.fmt_path(path) if path else None)
     # also a drain between loop exit and wait (bytes already available are not delayed)
-    closers = [n for n in cfg.nodes if n.kind == "for" and unparse(n.ast.iter) == "spec.pipe_channels" and any(last_attr(c) == "close_writer" for s in n.ast.body for c in calls_in(s))]
+    closers = [n for n in cfg.nodes if n.kind == "for" and isinstance(n.ast.iter, ast.Attribute) and n.ast.iter.attr == "pipe_channels" and unparse(n.ast.iter.value) in SPEC and any(last_attr(c) == "close_writer" for s in n.ast.body for c in calls_in(s))]
     reads = [n for n in cfg.nodes if n.kind == "stmt" and any(call_name(c) in ("_drain_stdout", "_read_all") for c in calls_in(n.ast))]
     if not reads or not blocking_waits:
         raise AnalysisError(f"{PL}:iterraw: blocking-branch anchors not found")
@@ -131,7 +138,7 @@ def check(ctx):
         ok = any(cfg.dominated(r, lambda m, w=w: m is w) for w in blocking_waits)
         ctx.ob("R3", f"{PL}:CommandPipeline.iterraw", f"blocking branch: `{short(r.ast, 50)}` reads everything only after proc.wait()", ok, key="iterraw|read-before-wait", where=loc(r.ast))
         # the writer-closing `if not spec.threadable` statement precedes the read
-        ifs = [n for n in cfg.nodes if n.kind == "if" and unparse(n.ast.test) == "not spec.threadable" and any(c.ast in ast.walk(n.ast) for c in closers)]
+        ifs = [n for n in cfg.nodes if n.kind == "if" and any(unparse(n.ast.test) == f"not {sp_}.threadable" for sp_ in SPEC) and any(c.ast in ast.walk(n.ast) for c in closers)]
         ok = bool(ifs) and cfg.dominated(r, lambda m: m in ifs)
         ctx.ob("R3", f"{PL}:CommandPipeline.iterraw", f"blocking branch: the parent's write ends are closed (non-threadable specs) before `{short(r.ast, 40)}` (otherwise the reader never sees EOF)", ok, key="iterraw|read-before-close-writer", where=loc(r.ast))
     po = ctx.repo.module(PO)
@@ -139,7 +146,7 @@ def check(ctx):
     rcfg = CFG(run)
     fin = [n for n in rcfg.nodes if n.kind == "while" and "is_fully_read()" in unparse(n.ast.test)]
     c1 = [n for n in rcfg.nodes if n.kind == "stmt" and any(call_name(c) == "safe_fdclose" and c.args and unparse(c.args[0]) == "self.orig_stdout" for c in calls_in(n.ast))]
-    c2 = [n for n in rcfg.nodes if n.kind == "for" and unparse(n.ast.iter) == "spec.pipe_channels" and any(last_attr(c) == "close_writer" for s in n.ast.body for c in calls_in(s))]
+    c2 = [n for n in rcfg.nodes if n.kind == "for" and isinstance(n.ast.iter, ast.Attribute) and n.ast.iter.attr == "pipe_channels" and any(last_attr(c) == "close_writer" for s in n.ast.body for c in calls_in(s))]
     ok = bool(fin) and bool(c1) and bool(c2) and all(rcfg.dominated(f, lambda m: m in c1) and rcfg.dominated(f, lambda m: m in c2) for f in fin)
     ctx.ob("R3", f"{PO}:PopenThread.run", "the parent's copies of the write ends are closed before the blocking is_fully_read() drain loop", ok, key="PopenThread.run|drain-before-close", where=loc(run))
     # the drain loop copies both streams each round
@@ -153,7 +160,17 @@ def check(ctx):
         raise AnchorMissing(f"{PL}:tee_stdout: loop over iterraw()")
     var = unparse(loop.target)
     bcfg = CFG(loop.body)
-    raw = [n for n in bcfg.nodes if n.kind == "stmt" and any(call_name(c) == "raw_out_lines.append" and c.args and unparse(c.args[0]) == var for c in calls_in(n.ast))]
+    tdefs = df.all_defs(ts)
+    # roles: the raw list is what is joined into self._raw_output; constants are identified by value
+    RAWL = {unparse(c.args[0]) for n in walk_local(ts) if isinstance(n, ast.Assign) and unparse(n.targets[0]) == "self._raw_output" for c in [n.value] if isinstance(c, ast.Call) and last_attr(c) == "join" and c.args}
+    LINES = names_bound_to_text(ts, "self.lines", tdefs) | {"self.lines"}
+    byval = lambda b_: names_defined_by(ts, lambda v, b_=b_: isinstance(v, ast.Constant) and v.value == b_, tdefs)
+    NL, CR, CRNL = byval(b"\n"), byval(b"\r"), byval(b"\r\n")
+    ENC = names_defined_by(ts, lambda v: isinstance(v, ast.Call) and last_attr(v) == "get" and v.args and const_value(v.args[0]) == "XONSH_ENCODING", tdefs)
+    ERR = names_defined_by(ts, lambda v: isinstance(v, ast.Call) and last_attr(v) == "get" and v.args and const_value(v.args[0]) == "XONSH_ENCODING_ERRORS", tdefs)
+    if not (RAWL and NL and CR and CRNL and ENC and ERR):
+        raise AnalysisError(f"{PL}:tee_stdout: roles not found (raw={RAWL} nl={NL} cr={CR} crnl={CRNL} enc={ENC} err={ERR})")
+    raw = [n for n in bcfg.nodes if n.kind == "stmt" and any(isinstance(c.func, ast.Attribute) and c.func.attr == "append" and unparse(c.func.value) in RAWL and c.args and unparse(c.args[0]) == var for c in calls_in(n.ast))]
     reas = [n for n in bcfg.nodes if n.kind == "stmt" and isinstance(n.ast, ast.Assign) and unparse(n.ast.targets[0]) == var]
     ok = len(raw) == 1 and all(bcfg.dominated(r, lambda m: m in raw) for r in reas)
     ctx.ob("R4", f"{PL}:CommandPipeline.tee_stdout", "the raw line is appended to raw_out_lines before the line is reshaped", ok, key="tee|raw-after-shaping", where=loc(loop))
@@ -164,18 +181,18 @@ def check(ctx):
         v = r.ast.value
         txt = unparse(v)
         ok = False
-        if isinstance(v, ast.BinOp) and isinstance(v.op, ast.Add) and isinstance(v.left, ast.Subscript) and unparse(v.left.value) == var and unparse(v.right) == "nl":
+        if isinstance(v, ast.BinOp) and isinstance(v.op, ast.Add) and isinstance(v.left, ast.Subscript) and unparse(v.left.value) == var and unparse(v.right) in NL:
             up = v.left.slice.upper if isinstance(v.left.slice, ast.Slice) else None
             cut = -const_value(up.operand) if isinstance(up, ast.UnaryOp) else None
             facts = facts_text(facts_at(bcfg, r))
-            ok = (cut == -2 and f"{var}.endswith(crnl)" in facts) or (cut == -1 and f"{var}.endswith(cr)" in facts)
-        elif txt == f"{var}.decode(encoding=enc, errors=err)":
+            ok = (cut == -2 and any(f"{var}.endswith({c_})" in facts for c_ in CRNL)) or (cut == -1 and any(f"{var}.endswith({c_})" in facts for c_ in CR))
+        elif isinstance(v, ast.Call) and unparse(v.func) == f"{var}.decode" and not v.args and {k.arg: unparse(k.value) for k in v.keywords}.keys() == {"encoding", "errors"} and unparse(kwarg(v, "encoding")) in ENC and unparse(kwarg(v, "errors")) in ERR:
             ok = True
         elif txt == f"RE_HIDE_ESCAPE.sub('', {var})":
             ok = True
         allowed += ok
         ctx.ob("R4", f"{PL}:CommandPipeline.tee_stdout", f"`{short(r.ast, 60)}` is one of the documented shapings (CRLF/CR->LF at line end, decode, escape stripping)", ok, key=f"tee|undocumented-shaping|{txt[:50]}", where=loc(r.ast))
-    app = [n for n in bcfg.nodes if n.kind == "stmt" and any(call_name(c) == "lines.append" for c in calls_in(n.ast))]
+    app = [n for n in bcfg.nodes if n.kind == "stmt" and any(isinstance(c.func, ast.Attribute) and c.func.attr == "append" and unparse(c.func.value) in LINES for c in calls_in(n.ast))]
     yl = [n for n in bcfg.nodes if n.kind == "stmt" and any(isinstance(x, ast.Yield) for x in ast.walk(n.ast))]
     ok = len(app) == 1 and len(yl) == 1 and bcfg.dominated(yl[0], lambda m: m in app)
     ctx.ob("R4", f"{PL}:CommandPipeline.tee_stdout", "each shaped line is appended to `lines` exactly once, before it is yielded", ok, key="tee|lines-append", where=loc(loop))
@@ -219,23 +236,30 @@ def check(ctx):
     # ------------------------------------------------------------------ R6
     tcfg = CFG(ts)
     sdefs = df.all_defs(ts)
-    sd = [d for d in sdefs.get("stream", []) if d.kind == "assign"]
+    STREAM = names_defined_by(ts, lambda v: unparse(v) == "self.captured not in STDOUT_CAPTURE_KINDS", sdefs)
+    if len(STREAM) != 1:
+        raise AnalysisError(f"{PL}:tee_stdout: echo flag (`self.captured not in STDOUT_CAPTURE_KINDS`) not found")
+    STREAM = next(iter(STREAM))
+    sd = [d for d in sdefs.get(STREAM, []) if d.kind == "assign"]
     first = sd[0].value if sd else None
     ok = first is not None and unparse(first) == "self.captured not in STDOUT_CAPTURE_KINDS" and all(isinstance(d.value, ast.Constant) and d.value.value is False for d in sd[1:])
     ctx.ob("R6", f"{PL}:CommandPipeline.tee_stdout", "echoing is enabled only for non-capturing kinds and can only be switched off afterwards", ok, key="tee|stream-flag", detail=str([unparse(d.value) for d in sd]))
-    writes = [n for n in tcfg.nodes if n.kind == "stmt" and any((call_name(c) or "").startswith("out_target.") and last_attr(c) == "write" for c in calls_in(n.ast))]
-    ok = bool(writes) and all("stream" in facts_text(facts_at(tcfg, w)) for w in writes)
+    TARGET = names_defined_by(ts, lambda v: unparse(v) in ("STDOUT_DISPATCHER.handle", "sys.stdout"), sdefs)
+    writes = [n for n in tcfg.nodes if n.kind == "stmt" and any((call_name(c) or "").split(".")[0] in TARGET and last_attr(c) == "write" for c in calls_in(n.ast))]
+    ok = bool(writes) and all(STREAM in facts_text(facts_at(tcfg, w)) for w in writes)
     ctx.ob("R6", f"{PL}:CommandPipeline.tee_stdout", "every write to the terminal target is guarded by the echo flag", ok, key="tee|unguarded-echo")
     sp = ctx.repo.module(SP)
     mk = sp.func("_make_last_spec_captured")
     mcfg = CFG(mk)
+    lastp = param_name(mk, 0, skip_self=False)
+    CAPT = names_bound_to_text(mk, f"{lastp}.captured") | {f"{lastp}.captured"}
     for n in mcfg.nodes:
-        if n.kind == "stmt" and isinstance(n.ast, ast.Assign) and unparse(n.ast.targets[0]) == "last.stderr":
+        if n.kind == "stmt" and isinstance(n.ast, ast.Assign) and unparse(n.ast.targets[0]) == f"{lastp}.stderr":
             facts = facts_text(facts_at(mcfg, n))
-            ok = "not captured == 'stdout'" in facts
+            ok = any(f"not {c_} == 'stdout'" in facts for c_ in CAPT)
             ctx.ob("R6", f"{SP}:_make_last_spec_captured", f"`{short(n.ast, 50)}`: stderr is re-plumbed only when the capture kind is not 'stdout' ($() leaves stderr alone)", ok, key="capture|stderr-touched-for-stdout", where=loc(n.ast), detail="; ".join(facts))
     # stdout capture pipe is created for the capturing kinds
-    ok = any(n.kind == "if" and "captured in STDOUT_CAPTURE_KINDS" in unparse(n.ast.test) for n in mcfg.nodes)
+    ok = any(n.kind == "if" and any(f"{c_} in STDOUT_CAPTURE_KINDS" in unparse(n.ast.test) for c_ in CAPT) for n in mcfg.nodes)
     ctx.ob("R6", f"{SP}:_make_last_spec_captured", "capturing kinds get a dedicated pipe for stdout", ok, key="capture|stdout-pipe")
 
 
